@@ -1,4 +1,88 @@
-(** * C05 - placeholder; the closed-form theorems are added below. *)
-From WB Require Import Num Base Features.
-Theorem C05_placeholder : True. Proof. exact I. Qed.
-Print Assumptions C05_placeholder.
+(** * C05 - models documented by a closed-form expression return that expression. *)
+From Coq Require Import Reals Lra List ZArith Bool.
+From WB Require Import Num Base RNum Props World Kernels Features ModelProofs.
+Import ListNotations.
+
+(** [S] range guard and dispatch: for every Num instance *)
+Section C05S.
+  Context {F : Type} {NF : Num F}.
+  Local Open Scope num_scope.
+
+  (** a model applies only inside its own min/max range: outside it returns the value painted so far *)
+  Theorem C05_out_of_range : forall g k sph (q : @query F) fmn fmx m old,
+    in_range (ds_min (fst (tm_surfs m))) (ds_max (snd (tm_surfs m))) (q_depth q) = false ->
+    temp_eval g k sph q fmn fmx m old = old.
+  Proof. intros g k sph q fmn fmx m old H. unfold temp_eval. destruct (tm_surfs m) as [mn mx]. cbn [fst snd] in H. now rewrite H. Qed.
+
+  (** inside its range each model returns apply_operation(op, old, closed form) *)
+  Theorem C05_dispatch : forall g k sph (q : @query F) fmn fmx m old,
+    in_range (ds_min (fst (tm_surfs m))) (ds_max (snd (tm_surfs m))) (q_depth q) = true ->
+    in_range (dsl sph q (fst (tm_surfs m))) (dsl sph q (snd (tm_surfs m))) (q_depth q) = true ->
+    let d := q_depth q in
+    let mnl := dsl sph q (fst (tm_surfs m)) in let mxl := dsl sph q (snd (tm_surfs m)) in
+    let top_ll := fmax fmn mnl in let bot_ll := fmin fmx mxl in
+    temp_eval g k sph q fmn fmx m old =
+    match m with
+    | TUniform _ _ o T => apply_op o old T
+    | TLinear _ _ o top bottom =>
+        apply_op o old (linear_T (if top <? f0 then adiabat_g g (q_g q) top_ll else top)
+                                 (if bottom <? f0 then adiabat_g g (q_g q) bot_ll else bottom) top_ll bot_ll d)
+    | TAdiabatic _ _ o Tp alpha cp => apply_op o old (adiabatic_T Tp alpha cp (q_g q) d)
+    | TChapman _ _ o kc A qt top =>
+        apply_op o old (chapman_T (if top <? f0 then adiabat_g g (q_g q) top_ll else top) qt kc A (d - top_ll))
+    | THalfSpace mn _ o top bottom ridges vels =>
+        let '(v, dist) := ridge_distance_and_spreading sph ridges vels (nat_at_min_depth sph q (ds_min mn)) in
+        apply_op o old (half_space_T (g_kappa g) top (if bottom <? f0 then adiabat_g g (q_g q) d else bottom) (dist / v) d)
+    | _ => temp_eval g k sph q fmn fmx m old
+    end.
+  Proof.
+    intros g k sph q fmn fmx m old H1 H2. cbn zeta. unfold temp_eval.
+    destruct (tm_surfs m) as [mn mx] eqn:E. cbn [fst snd] in *. rewrite H1, H2.
+    destruct m; try reflexivity.
+    cbn [tm_surfs] in E. inversion E; subst. reflexivity.
+  Qed.
+End C05S.
+
+Local Open Scope R_scope.
+Section C05R.
+  Variable sp : special.
+  Local Existing Instance Rnum.
+  Let N := Rnum sp.
+
+  (** linear between the local top and bottom of the model's range *)
+  Theorem C05_linear : forall top bot a b d,
+    10 * powerRZ 2 (-52) <= b - a ->
+    @linear_T R N top bot a b d = top + (d - a) * (bot - top) / (b - a).
+  Proof. exact (linear_closed_form sp). Qed.
+
+  Theorem C05_chapman : forall top q k A dz,
+    @chapman_T R N top q k A dz = top + (q / k) * dz - (A / (2 * k)) * dz * dz.
+  Proof. exact (chapman_closed_form sp). Qed.
+
+  Theorem C05_adiabatic : forall Tp alpha cp g d, @adiabatic_T R N Tp alpha cp g d = Tp * exp (alpha * g / cp * d).
+  Proof. exact (adiabatic_closed_form sp). Qed.
+
+  Theorem C05_half_space : forall kappa top bot age d, 0 < age ->
+    @half_space_T R N kappa top bot age d = bot + (top - bot) * sp_erfc sp (d / (2 * sqrt (kappa * age))).
+  Proof. exact (half_space_closed_form sp). Qed.
+
+  (** the age uses the distance to the nearest point of the ridge segment: the clamped projection
+      minimises the distance over the whole segment *)
+  Theorem C05_ridge_nearest_point : forall (px py ax ay bx by_ t : R),
+    0 <= t <= 1 -> (ax, ay) <> (bx, by_) ->
+    let vx := bx - ax in let vy := by_ - ay in
+    let c := vx * vx + vy * vy in
+    let c1 := (px - ax) * vx + (py - ay) * vy in
+    let s := if Rle_dec c1 0 then 0 else if Rle_dec c c1 then 1 else c1 / c in
+    (px - (ax + s * vx)) * (px - (ax + s * vx)) + (py - (ay + s * vy)) * (py - (ay + s * vy)) <=
+    (px - (ax + t * vx)) * (px - (ax + t * vx)) + (py - (ay + t * vy)) * (py - (ay + t * vy)).
+  Proof. exact ridge_projection_nearest. Qed.
+End C05R.
+
+Print Assumptions C05_out_of_range.
+Print Assumptions C05_dispatch.
+Print Assumptions C05_linear.
+Print Assumptions C05_chapman.
+Print Assumptions C05_adiabatic.
+Print Assumptions C05_half_space.
+Print Assumptions C05_ridge_nearest_point.
